@@ -24,6 +24,8 @@ EXPR_ERRORS = [
     ("not_indexable", "null[0]"), ("not_range_indexable", "1[0:1]"), ("too_few_args", "rest_params()"),
     ("refeq_types", "1 === 1"), ("lt_types", '"a" < "b"'), ("prop_name_type", "{1: 2}"), ("this_undefined", "this"),
     ("method_this_print", "obj_with_print.p(1)"), ("nested_eq_types", '[[1, "a"]] == [[1, 2]]'),
+    ("utf8_print_in_list", 'print(["first", "é"[0], "last"])'), ("utf8_print_in_object", 'print({"a": "first", "b": {"c": "é"[0:1]}})'),
+    ("utf8_print_nested", 'print([1, [2, ["é"[1]]], 3])'),
 ]
 
 STMT_ERRORS = [
@@ -52,6 +54,12 @@ POSITIONS = {
     "list_item": lambda e: f"v_list := [0, {e}]",
     "return": lambda e: None,     # handled specially (must be inside a function)
     "op_rhs": lambda e: f"ok_acc += {e}",
+    "spread_item": lambda e: f"v_sp := [0, ident([{e}])..]",
+    "spread_arg": lambda e: f"ident(ident([{e}])..)",
+    "spread_prop": lambda e: f'v_spo := {{"k": 0, ident({{"z": {e}}})..}}',
+    "range_bound": lambda e: f"v_rb := ok_list[0:ident({e})]",
+    "prop_name": lambda e: f"v_pn := {{ident({e}): 1}}",
+    "call_callee": lambda e: f"ident({e})(1)" if e[0].isalpha() or e[0] in "([{" else None,
 }
 
 PRELUDE = ('fn two_params(a, b) {\n    return a\n}\nfn rest_params(a, ..r) {\n    return a\n}\nfn ident(x) {\n    return x\n}\n'
